@@ -34,6 +34,10 @@ RULES = {
     "replace_grid": "enumeration: 14 bases (named/IPv4/IPv6, with/without port incl. 0, userinfo incl. ':'/'@' password and empty password, "
     "'@' ':' '/' in path/query/fragment, empty path) x every single change from the value lists (incl. port 0/None, scheme '', percent escapes "
     "in path/query) and a list of pairs/triples, plus two-step chains; same oracle as 'replace'",
+    "replace_text": "enumeration: 200 URL texts whose port is not spelled canonically (':0080', ':08000', ':00443', ':00', empty ':') on named / "
+    "IPv4 / IPv6 / upper-case hosts, with and without user info x every replace() that does not name the host (singles, combinations, chains); "
+    "components compared by value (port as integer, None when empty); the same bases go through repr_grid and, 1 in 6, through 'replace'/'repr'; "
+    "such Host headers are in request_opt / request / request_edit",
     "request_edit": "enumeration: request URLs (from environ and from scope; Host header / server only / IPv6 / non-default port) edited with "
     "replace(): expectation = reference assembler + list model",
     "repr_grid": "enumeration: 5 hosts (named, upper-case, IPv4:0, IPv6, IPv6:port) x 16 user/password pairs (password = user name, inside the user "
@@ -52,6 +56,8 @@ ASSUMPTIONS = [
     "not generated, outside the quantified domain (no server address and no Host header): a path starting with '//' when there is no authority at all",
     "TAB, LF, CR, VT, FF, NUL, DEL, U+0085, U+2028 inside path segments and root paths are ordinary path text (what %09, %0A ... decode to): "
     "judged by the same rule as every other path",
+    "a port spelled with leading zeros (':0080') or empty (':') is legal URL / Host text; its value is the integer (None when empty): components are "
+    "compared by value, so replace()/repr() may or may not normalise the spelling of an untouched port",
     "a query without '=' ('flag') is the pair ('flag', '') of the multi-value query (keep_blank_values, as in QueryParams)",
 ]
 
@@ -255,7 +261,10 @@ def oracle_convention(case) -> Result:
 def build(c):
     """URL text from components (None = absent)."""
     authority = c["host"]
-    if c["port"] is not None:
+    if c.get("port_text") is not None:
+        # the port as it is spelled in the text (leading zeros, or nothing after the colon); c["port"] is its value
+        authority += ":" + c["port_text"]
+    elif c["port"] is not None:
         authority += f":{c['port']}"
     if c["username"] is not None:
         ui = c["username"] + (f":{c['password']}" if c["password"] is not None else "")
@@ -349,6 +358,8 @@ def oracle_replace(case) -> Result:
         r.label("port-0")
     if any(c.get("scheme") == "" for c in steps):
         r.label("scheme-removed")
+    if base.get("port_text") is not None:
+        r.label("port-empty" if base["port_text"] == "" else "port-leading-zeros")
     return r
 
 
@@ -469,13 +480,15 @@ def oracle_repr(case) -> Result:
             r.fail("C18:repr:changed-without-password", f"URL({text!r}): repr {rep!r}")
     r.nontrivial = bool(pw)
     r.label("password" if pw else "no-password")
+    if c.get("port_text") is not None:
+        r.label("port-spelling-not-canonical")
     if pw and any(pw in str(c[k]) for k in ("host", "path", "query", "fragment") if c[k]):
         r.label("password-occurs-elsewhere")
     return r
 
 
 SUBS = {"request": oracle_request, "request_grid": oracle_request, "request_opt": oracle_request, "path_convention": oracle_convention,
-        "replace": oracle_replace, "replace_grid": oracle_replace, "request_edit": oracle_request_edit,
+        "replace": oracle_replace, "replace_grid": oracle_replace, "replace_text": oracle_replace, "request_edit": oracle_request_edit,
         "query": oracle_query, "query_grid": oracle_query, "repr": oracle_repr, "repr_grid": oracle_repr}
 
 # ------------------------------------------------------------------------------------------
@@ -534,7 +547,7 @@ def request_case(draw):
         server = [draw(_v6), port]
     else:
         server = [draw(_hostname), port]
-    hk = draw(st.sampled_from(["absent", "absent", "name", "name:port", "v6", "v6:port"]))
+    hk = draw(st.sampled_from(["absent", "absent", "absent", "name", "name", "name:port", "name:port", "v6", "v6:port", "v6:port", "name:text", "v6:text"]))
     if hk == "absent":
         host = None
     elif hk == "name":
@@ -543,6 +556,10 @@ def request_case(draw):
         host = f"{draw(_hostname)}:{draw(_port)}"
     elif hk == "v6":
         host = f"[{draw(_v6)}]"
+    elif hk == "name:text":
+        host = f"{draw(_hostname)}:{draw(st.sampled_from(PORT_TEXTS))}"  # Host = uri-host [":" port], port = *DIGIT
+    elif hk == "v6:text":
+        host = f"[{draw(_v6)}]:{draw(st.sampled_from(PORT_TEXTS))}"
     else:
         host = f"[{draw(_v6)}]:{draw(_port)}"
     root = draw(st.sampled_from(["", "", "", "/root", "/a/b", "/é", "/r/", "/r\tt", "/l\nf/\r", "/v\x0bt\x85"]))
@@ -602,6 +619,14 @@ def request_opt_grid():
                     case = {"scheme": scheme, "server": server, "host": host, "root": "", "path": "/p/q", "query": b"a=1&b=2"}
                     case.update(var)
                     yield case
+    # Host headers whose port is not spelled canonically (value = the integer, None when empty)
+    for scheme in ("http", "https", "ws", "wss"):
+        for server in (None, ["example.org", DEFAULT[scheme]], ["::1", 8000]):
+            for host in ("example.org:08080", "example.org:0080", "example.org:00443", "example.org:", "127.0.0.1:00", "[fe::2]:00443", "[fe::2]:", "EXAMPLE.com:065535"):
+                for var in ({}, {"pre": [xfh, xfport]}, {"omit": list(ASGI_OPTIONAL + WSGI_OPTIONAL), "query": b""}):
+                    case = {"scheme": scheme, "server": server, "host": host, "root": "", "path": "/p/q", "query": b"a=1&b=2"}
+                    case.update(var)
+                    yield case
 
 
 def convention_grid():
@@ -616,6 +641,8 @@ _unres = st.text(alphabet="abcXYZ019-._~", min_size=1, max_size=6)
 _pw = st.one_of(_unres, st.sampled_from(["p:q", "p@ss", "a:b@c", "********", "x", "secret", "example", "path"]), st.just(""))
 _rport = st.sampled_from([80, 443, 8000, 8080, 1, 65535, 8443, 0])  # port 0 is a legal port number of a URL
 
+# port spellings that are not the canonical integer: leading zeros, or nothing after the colon (value None); all legal (port = *DIGIT)
+PORT_TEXTS = ["0080", "08000", "00443", "00", "", "000", "065535", "01"]
 BASE_PATHS = ["", "/", "/path/to/somewhere", "/secret/x", "/a%20b", "/a@b:c"]
 BASE_QUERIES = ["", "abc=123", "a=1&b=2", "secret=1", "e=a@b.c:1&next=/x"]
 BASE_FRAGMENTS = ["", "anchor", "secret", "f@g:2/h?i"]
@@ -633,7 +660,7 @@ def base_url(draw):
     host = f"[{draw(_v6)}]" if hk == "v6" else draw(_hostname)
     user = draw(st.one_of(st.none(), _unres))
     pw = draw(st.one_of(st.none(), _pw)) if user is not None else None
-    return {
+    base = {
         "scheme": draw(st.sampled_from(["http", "https", "ws", "ftp"])),
         "username": user,
         "password": pw,
@@ -643,6 +670,10 @@ def base_url(draw):
         "query": draw(st.sampled_from(BASE_QUERIES)),
         "fragment": draw(st.sampled_from(BASE_FRAGMENTS)),
     }
+    if draw(st.integers(0, 5)) == 0:
+        base["port_text"] = draw(st.sampled_from(PORT_TEXTS))
+        base["port"] = int(base["port_text"]) if base["port_text"] else None
+    return base
 
 
 @st.composite
@@ -704,6 +735,34 @@ def replace_grid():
             yield {"base": base, "changes": chain[0], "then": chain[1:], "ctor": False}
 
 
+def text_bases():
+    for host in ("example.org", "127.0.0.1", "[fe::2]", "EXAMPLE.com"):
+        for pt in ("0080", "08000", "00443", "00", ""):
+            for user, pw in ((None, None), ("u", None), ("u", "p@ss"), ("user", ""), ("0", "00")):
+                for path, query, fragment in (("/p", "a=1", ""), ("", "e=a@b.c:1", "f@g:2")):
+                    yield {"scheme": "http", "username": user, "password": pw, "host": host, "port": int(pt) if pt else None, "port_text": pt,
+                           "path": path, "query": query, "fragment": fragment}
+
+
+def replace_text_grid():
+    """URLs whose port is not spelled canonically x every replace() that does not name the host: components are compared by value (the
+    port as an integer, None when empty), so the spelling of an untouched port may or may not be normalised."""
+    singles = []
+    for k, vals in NEW_VALUES.items():
+        singles += [{k: v} for v in vals[:4]]
+    singles += [{"username": v} for v in (None, "alice")] + [{"password": v} for v in (None, "npw", "n:p@w")] + [{"port": v} for v in (None, 0, 80, 8443)]
+    combos = [{"scheme": "https", "port": 8443}, {"username": "n", "password": "p:q@r"}, {"username": None, "password": "x"}, {"username": "alice", "path": "/x"},
+              {"password": "pw2", "fragment": "top"}, {"port": None, "query": ""}, {"scheme": "", "username": "n"}, {"path": "", "query": "", "fragment": ""},
+              {"username": "a", "password": "b", "port": 1, "scheme": "wss", "path": "/z", "query": "q=1", "fragment": "f"}]
+    chains = [[{"username": "alice"}, {"port": 8443}], [{"scheme": "https"}, {"password": "x"}], [{"path": "/x"}, {"username": None}], [{"port": None}, {"port": 80}],
+              [{"fragment": "top"}, {"username": "n"}, {"password": None}]]
+    for base in text_bases():
+        for ch in singles + combos:
+            yield {"base": base, "changes": ch, "ctor": False}
+        for chain in chains:
+            yield {"base": base, "changes": chain[0], "then": chain[1:], "ctor": False}
+
+
 def request_edit_grid():
     edits = [
         [{"port": 8443}], [{"scheme": "https", "port": None}], [{"scheme": "https", "port": 8443, "fragment": "top"}], [{"host": "new.example"}],
@@ -714,6 +773,7 @@ def request_edit_grid():
         ("http", ["example.org", 80], None), ("http", ["example.org", 8000], None), ("wss", ["::1", 443], None), ("https", ["fe80::1", 8443], None),
         ("http", ["127.0.0.1", 8000], "EXAMPLE.com"), ("https", ["example.org", 443], "example.com:8080"), ("ws", ["example.org", 80], "[fe::2]:8443"),
         ("http", ["example.org", 80], "[::1]"), ("https", ["example.org", None], None), ("http", None, "example.com:80"),
+        ("http", ["example.org", 80], "example.org:08080"), ("https", ["example.org", 443], "[fe::2]:00443"), ("http", ["example.org", 80], "example.org:"),
     ):
         for root, path, query in (("", "/", b""), ("/app", "/x", b"a=1&b=2")):
             for steps in edits:
@@ -763,7 +823,21 @@ def repr_grid():
                          ("u", "a:b@c"), ("u", "********"), ("u", "secret"), ("u", "1"), ("u", "e"), ("u", ""), ("u", None), (None, None)):
             for path, query, fragment in (("", "", ""), ("/secret/x", "secret=1&e=a@b.c:1", "secret"), ("/a@b:c", "", "f@g:2/h?i")):
                 yield {"base": {"scheme": "http", "username": user, "password": pw, "host": host, "port": port, "path": path, "query": query, "fragment": fragment}}
+    for base in text_bases():  # port spelled with leading zeros / empty
+        yield {"base": base}
 
+
+
+def oracle_atheris(case) -> Result:
+    """Replay / triage oracle for inputs found by the Atheris campaign: decode the bytes like the fuzz target does."""
+    from fuzz import targets
+
+    res = oracle_replace(targets.CASES["C18"](case["data"]))
+    res.label("atheris")
+    return res
+
+
+SUBS["atheris"] = oracle_atheris
 
 def run(rec, only=None):
     quick = rec.tier == "quick"
@@ -771,10 +845,11 @@ def run(rec, only=None):
     core.drive_cases(rec, "request_opt", request_opt_grid(), oracle_request)
     core.drive_cases(rec, "path_convention", convention_grid(), oracle_convention)
     core.drive_cases(rec, "replace_grid", replace_grid(), oracle_replace)
+    core.drive_cases(rec, "replace_text", replace_text_grid(), oracle_replace)
     core.drive_cases(rec, "request_edit", request_edit_grid(), oracle_request_edit)
     core.drive_cases(rec, "query_grid", query_grid(), oracle_query)
     core.drive_cases(rec, "repr_grid", repr_grid(), oracle_repr)
-    for k in ("request_grid", "request_opt", "path_convention", "replace_grid", "request_edit", "query_grid", "repr_grid"):
+    for k in ("request_grid", "request_opt", "path_convention", "replace_grid", "replace_text", "request_edit", "query_grid", "repr_grid"):
         rec.exhaustive[k] = True
     core.drive_hypothesis(rec, "request", request_case(), oracle_request, 1500 if quick else 40000)
     core.drive_hypothesis(rec, "replace", replace_case(), oracle_replace, 2000 if quick else 40000, seed_offset=1)
@@ -782,3 +857,8 @@ def run(rec, only=None):
     core.drive_hypothesis(rec, "repr", repr_case(), oracle_repr, 800 if quick else 20000, seed_offset=3)
     for k in ("request", "replace", "query", "repr"):
         rec.exhaustive[k] = False
+    if not quick and (rec.only is None or "atheris" in rec.only):
+        # coverage-guided second engine (Atheris / libFuzzer), same oracle inside the target
+        from fuzz import driver
+
+        driver.campaign(rec, "C18", oracle_atheris, runs=300000, seeds=[b'\x01\x02ab\x01\x01\x00\x03\x01\x02\x00\x01'], max_total_time=150, jobs=4)
